@@ -8,7 +8,7 @@ PAIRS_THOROUGH = PAIRS_QUICK + [(0, 0, "", 3), (0, 0, "h/a/", 2), (7, 9, "h/s/q1
 
 def x_obligations(tier):
     o = []
-    T = 170 if tier == "quick" else 1200
+    T = 170 if tier == "quick" else 600
     pairs = PAIRS_QUICK if tier == "quick" else PAIRS_THOROUGH
     for ti, tj, pre, n in pairs:
         env = {"VF_TI": str(ti), "VF_TJ": str(tj), "VF_PRE": pre, "VF_N": str(n)}
